@@ -96,10 +96,12 @@ DELETE FROM safe_update
 # A product node can be reached through more than one flagged ancestor at once
 # (e.g. Step.detach()/reattach() flags a whole subtree
 # via RECURSIVE_CHECK_WITH_PRODUCTS in step.py),
-# so only the topmost flagged step of such a chain is a seed (see the seed's WHERE clause):
-# seeding a step from the stored _safe of a creator that is itself being recomputed
-# would mix a stale value into the result.
-# Every node then has one row; MIN(safe)/MIN(safe_nh) only makes that explicit for GROUP BY.
+# so a node can have several rows.
+# Seeding a step from the stored _safe of an ancestor that is itself being recomputed
+# would mix a stale value into the result:
+# a flagged step whose creator is flagged too is therefore not a seed at all,
+# and of the remaining rows of a node the one with the largest depth is kept,
+# i.e. the one that was derived from its topmost flagged ancestor.
 #
 # `trace` carries four values per node:
 # `safe`/`safe_nh` are that node's own new _safe/_safe_ignoring_hold (what gets written out)
@@ -119,7 +121,7 @@ DELETE FROM safe_update
 # instead of requiring a second downward pass.
 FILL_SAFE_UPDATE = f"""
 INSERT INTO safe_update(i, safe, safe_nh)
-WITH RECURSIVE trace(i, safe, chain, safe_nh, chain_nh) AS (
+WITH RECURSIVE trace(i, safe, chain, safe_nh, chain_nh, depth) AS (
     -- Seed directly at each _check_safe-flagged step,
     -- using its creator's already-computed _safe/_safe_ignoring_hold and state
     -- (a root creator has no `step` row and is treated as trivially safe via COALESCE).
@@ -154,7 +156,8 @@ WITH RECURSIVE trace(i, safe, chain, safe_nh, chain_nh) AS (
             creator_step._safe_ignoring_hold AND
                 creator_step.state IN ({StepState.RUNNING.value}, {StepState.SUCCEEDED.value}),
             1
-        ) AND s.state IN ({StepState.RUNNING.value}, {StepState.SUCCEEDED.value})
+        ) AND s.state IN ({StepState.RUNNING.value}, {StepState.SUCCEEDED.value}),
+        0
     FROM step AS s
     JOIN node AS cnode ON cnode.i = s.node
     LEFT JOIN step AS creator_step ON creator_step.node = cnode.creator
@@ -176,12 +179,17 @@ WITH RECURSIVE trace(i, safe, chain, safe_nh, chain_nh) AS (
         trace.chain AND sp.state IN ({StepState.RUNNING.value}, {StepState.SUCCEEDED.value})
             AND sp._holding = 0,
         trace.chain_nh,
-        trace.chain_nh AND sp.state IN ({StepState.RUNNING.value}, {StepState.SUCCEEDED.value})
+        trace.chain_nh AND sp.state IN ({StepState.RUNNING.value}, {StepState.SUCCEEDED.value}),
+        trace.depth + 1
     FROM trace
     JOIN node AS product ON product.creator = trace.i
     JOIN step AS sp ON sp.node = product.i
 )
-SELECT i, MIN(safe), MIN(safe_nh) FROM trace GROUP BY i
+-- A node can be reached from several flagged ancestors (the flagged ancestor need not be
+-- its direct creator). The row that comes from the topmost one is the row with the largest
+-- depth, and it is the only one that does not start from a stored value that is being
+-- recomputed in this very statement. (SQLite takes the bare columns from the MAX row.)
+SELECT i, safe, safe_nh FROM (SELECT i, safe, safe_nh, MAX(depth) FROM trace GROUP BY i)
 """
 
 
